@@ -383,6 +383,9 @@ def r11(tree, rep, tier):
 
 
 def run(tree, rep, tier):
+    from .. import round9 as _r9b
+    _r9b.no_yield_between(tree, rep, "C10.R14", "src/wormhole/_dilation/subchannel.py", "SubchannelConnectorEndpoint", "connect", "subchannel_local_open",
+                          ("_set_protocol", "makeConnection"), "the subchannel is already registered with Inbound but has no protocol: DATA / CLOSE that arrive in that turn are parked in _pending_remote_data, which only the listener path drains - they are acknowledged and never delivered (connectionLost never fires on the connecting side)")
     from .. import round9 as _r9
     _r9.be4_codec_unsigned(tree, rep, "C10.R13")
     from .. import itermut
@@ -433,3 +436,5 @@ MUTANTS.append(Mutant("abandon-forgets-connection", MGR, "        self._connecti
                       also=((MGR, "        # the connection is already lost by this point\n", "        # the connection is already lost by this point\n        if self._connection is None:\n            return\n"),)))
 
 MUTANTS.append(Mutant("signed-be4-decoder", "src/wormhole/_dilation/encode.py", "    return struct.unpack(\">L\", b)[0]", "    return struct.unpack(\">l\", b)[0]", "C10.R13", "seed C10-21"))
+
+MUTANTS.append(Mutant("yield-before-protocol-attached", "src/wormhole/_dilation/subchannel.py", "        p = protocolFactory.buildProtocol(peer_addr)\n        sc._set_protocol(p)\n", "        p = protocolFactory.buildProtocol(peer_addr)\n        yield self._eventual_queue.fire_eventually()\n        sc._set_protocol(p)\n", "C10.R14", "seeds C10-20 / C13-20"))
